@@ -249,6 +249,14 @@ func (v *Vue) evaluateNodeAsElement(ctx VueContext, node *html.Node, depth int) 
 			// Evaluate the bound attribute expression
 			// Use expression evaluator for templates to support literals and expressions
 			expr := strings.TrimSpace(attr.Val)
+			// (a filter chain or a call of a registered function first, as on a <template>
+			// that is no member of a chain: :n="items | len", :d="jsonFile('d.json')")
+			if piped, perr := v.evalPipe(ctx, parsePipeExpr(expr)); perr == nil {
+				ctx.stack.Set(boundName, piped)
+				continue
+			} else if isFuncCallError(perr) {
+				return nil, fmt.Errorf("in binding %s=\"%s\": %w", attr.Key, attr.Val, perr)
+			}
 			val, err := v.exprEval.Eval(expr, v.exprEnv(ctx, expr))
 			if err == nil {
 				// Expression evaluated successfully
